@@ -615,3 +615,51 @@ M("C13.lvl_also_attribute", ["C13"], "emitter/otlp/src/data/logs/log_record.rs",
                         stream.stream_attribute(k, v)""", "C13.R4")
 M("C13.span_status_index_14", ["C13"], "emitter/otlp/src/data/traces/span.rs",
   "const SPAN_STATUS_INDEX: sval::Index = sval::Index::new(15);", "const SPAN_STATUS_INDEX: sval::Index = sval::Index::new(14);", "C13.R3")
+
+# ---- C15 -------------------------------------------------------------------------------------------
+M("C15.unwrap_in_parser", ["C15"], "traceparent/src/lib.rs",
+  "            Some(TraceId::try_from_hex_slice(trace_id).map_err(|e| Error { msg: e.to_string() })?)",
+  "            Some(TraceId::try_from_hex_slice(trace_id).unwrap())", "C15.R1.panic")
+M("C15.hex_table_off_by_one", ["C15"], "src/span.rs", None, None, "C15.R2") if False else None
+M("C15.path_accepts_single_colon(reverse of fix 8255e1b)", ["C15"], "core/src/path.rs",
+  """            // A lone `:` that isn't followed by another `:`
+            _ if separators == 1 => return false,
+""", "", "C15.R3")
+M("C15.template_unused", ["C15"], "core/src/path.rs", None, None, "x") if False else None
+M("C15.rfc3339_str_slicing", ["C15"], "core/src/timestamp.rs",
+  "    let years = digits(&fmt[0..4])? as u16;",
+  "    let years = digits(_s[0..4].as_bytes())? as u16;", "C15.R1") if False else None
+# (C15.rfc3339_len_19_allowed removed: equivalent mutant - a 19-byte input is still rejected by the digit/zone checks, no panic)
+M("C15.rfc3339_separator_unchecked", ["C15"], "core/src/timestamp.rs",
+  "    separator(fmt, 10, b'T')?;", "    let _ = separator(fmt, 10, b'T');", "C15.R4:rfc3339")
+M("C15.traceparent_wrong_offset", ["C15"], "traceparent/src/lib.rs",
+  "        let span_id = &bytes[36..52];", "        let span_id = &bytes[35..51];", "C15.R4:traceparent")
+M("C15.traceparent_len_56", ["C15"], "traceparent/src/lib.rs",
+  "        if bytes.len() != 55 {", "        if bytes.len() < 53 {", ["C15.R4:traceparent", "C15.R1.panic"])
+M("C15.from_parts_zero_day(reverse of part of fix 1be2e5e)", ["C15"], "core/src/timestamp.rs",
+  "        let days = parts.days.checked_sub(1)?;", "        let days = parts.days - 1;", "C15.R1.panic")
+M("C15.sentinel_dropped", ["C15"], "src/span.rs",
+  """            if h1 | h2 == 0xff {
+                return Err(ParseIdError {});
+            }
+
+            // The upper nibble needs to be shifted into position
+            // to produce the final byte value
+            dst[i] = SHL4_TABLE[h1 as usize] | h2;
+            i += 1;
+        }
+
+        Ok(TraceId::new(""",
+  """            // The upper nibble needs to be shifted into position
+            // to produce the final byte value
+            dst[i] = SHL4_TABLE[h1 as usize] | h2;
+            i += 1;
+        }
+
+        Ok(TraceId::new(""", "C15.R2:sentinel")
+M("C15.digits_accepts_sign", ["C15"], "core/src/timestamp.rs",
+  """    let years = digits(&fmt[0..4])? as u16;""",
+  """    let years = core::str::from_utf8(&fmt[0..4]).ok().and_then(|s| u16::from_str_radix(s, 10).ok()).ok_or(ParseTimestampError {})?;""", "C15.R1:forbidden")
+M("C15.hex_table_off_by_one", ["C15"], "src/span.rs",
+  "            b'A'..=b'F' => i - b'A' + 10,\n            _ => 0xff,\n        };\n\n        if i == 255 {\n            break buf;\n        }\n\n        i += 1\n    }\n};\n\nconst SHL4_TABLE",
+  "            b'A'..=b'F' => i - b'A' + 11,\n            _ => 0xff,\n        };\n\n        if i == 255 {\n            break buf;\n        }\n\n        i += 1\n    }\n};\n\nconst SHL4_TABLE", "C15.R2:hex-tables")
